@@ -169,27 +169,55 @@ def removal_scenarios(start, rng, n):
 
 
 def life_scenarios(start, lives, long_wait_every=0):
-    """EndpointLife.tla: every life of one endpoint (stub 0: added on/off, disabled, enabled, removed, re-added ..) next to an
-    endpoint that stays (stub 1); after every change every endpoint object that is not live any more is poked (what the
-    dispatcher does after a proxy error) and a request is sent: a health-check loop that survived answers with a probe"""
+    """EndpointLife.tla: every life of one endpoint (stub 0: added on/off, disabled, enabled, removed, re-added, its upstream turning unhealthy /
+    healthy at any point) next to an endpoint that stays (stub 1); after every change every endpoint object that is not live any more is poked
+    (what the dispatcher does after a proxy error): a health-check loop that survived answers with a probe; every endpoint that is listed as
+    enabled is poked as well: it must probe, and the gateway's view of it must then be what its upstream answers"""
     out = []
     for i, life in enumerate(lives):
         st = [{"k": "apply", "cluster": cluster("c1", {1: "on"}, [])}, {"k": "quiesce"}, {"k": "waitready", "name": "c1", "ready": [1]}]
+        servers = {1: "on"}
         for j, m in enumerate(life):
-            servers = {1: "on"}
-            if m != "gone":
-                servers[0] = m
-            st += [{"k": "apply", "cluster": cluster("c1", servers, [])}, {"k": "quiesce"},
-                   {"k": "waitready", "name": "c1", "ready": sorted(s for s, x in servers.items() if x == "on")},
+            if m in ("hfail", "hok"):
+                st += [{"k": "health", "stub": 0, "mode": "fail" if m == "hfail" else "ok"}, {"k": "quiesce"}]
+            else:
+                servers = {1: "on"}
+                if m != "gone":
+                    servers[0] = m
+                st += [{"k": "apply", "cluster": cluster("c1", servers, [])}, {"k": "quiesce"}]
+            st += [{"k": "waitready", "name": "c1", "ready": [1], "only": [1]}, {"k": "pokelive", "name": "c1"},
                    {"k": "poke"}, {"k": "quiesce"},
                    {"k": "req", "id": "r%d" % j, "host": "c1", "method": "GET", "path": "/apis/apps/v1/namespaces/d/deployments", "token": "tok-alice", "resp": {"status": 200, "bodySize": 2}},
                    {"k": "req", "id": "q%d" % j, "host": "c1", "method": "GET", "path": "/apis/apps/v1/namespaces/d/deployments", "token": "tok-alice", "resp": {"status": 200, "bodySize": 2}}]
         if long_wait_every and i % long_wait_every == 0:
             st += [{"k": "sleep", "n": 5600}, {"k": "quiesce"}]      # one full health-check interval: a loop that survived ticks by itself
-        st += [{"k": "delete", "name": "c1"}, {"k": "quiesce"}, {"k": "poke"}, {"k": "quiesce"},
+        st += [{"k": "delete", "name": "c1"}, {"k": "quiesce"}, {"k": "poke"}, {"k": "quiesce"}, {"k": "health", "stub": 0, "mode": "ok"},
                {"k": "req", "id": "end-marker", "host": "nobody", "method": "GET", "path": "/version", "token": "tok-alice"}]
         out.append({"id": start + i, "stubs": 4, "tokens": TOK, "authz": [], "authzDefault": "deny", "steps": st, "life": life})
     return out
+
+
+def lives_of(tier, prop):
+    """the lives of EndpointLife.tla (and its vacuity guards: a loop hanging from the cluster's context / a loop not restarted after 'disabled' refuted)"""
+    states = trans = 0
+    for consts, expect in (({"Parent": '"cluster"'}, True), ({"Restart": "FALSE"}, True)):
+        g = vlib.tlc("dataplane", "EndpointLife", "EndpointLife.cfg", workers=2, timeout=600, consts=dict(consts, MaxLen=4))
+        if bool(g.violation) != expect:
+            raise Infra("EndpointLife.tla %s: unexpected result %s" % (consts, g.violated()))
+        states, trans = states + g.distinct, trans + g.generated
+    lives = []
+    for consts in ({"Health": "FALSE", "MaxLen": 4 if tier == "quick" else 6}, {"Health": "TRUE", "MaxLen": 4 if tier == "quick" else 6}):
+        lf = vlib.tlc("dataplane", "EndpointLife", "EndpointLife.cfg", workers=2, timeout=600, consts=consts)
+        if lf.violation:
+            raise Infra("EndpointLife.tla violates %s" % lf.violated())
+        states, trans = states + lf.distinct, trans + lf.generated
+        for x in lf.json_prints("LIFE"):
+            x = json.loads(x) if isinstance(x, str) else x
+            if x not in lives:
+                lives.append(x)
+    if len(lives) < 20:
+        raise Infra("too few endpoint lives")
+    return lives, states, trans
 
 
 def picks_scenarios(start, rng, n):
@@ -281,7 +309,11 @@ def project(sc, events):
         elif k == "health":
             out.append({"k": "health", "stub": e["stub"]})
         elif k == "ready" and e["name"] == "c1":
-            out.append({"k": "ready", "ready": e["ready"]})
+            out.append({"k": "ready", "ready": e["ready"], "only": e.get("only") or [], "timeout": bool(e.get("timeout")), "got": e.get("got") or []})
+        elif k == "triggered" and e.get("name") == "c1":
+            out.append({"k": "triggered", "stub": e["stub"], "probed": e["probed"]})
+        elif k == "pokelive" and e["name"] == "c1":
+            out.append({"k": "pokelive", "stub": e["stub"], "probed": e["probed"], "ready": e["ready"], "health": e.get("health") or "ok"})
         elif k == "quiesce":
             out.append({"k": "mark"})
         elif k == "probe":
@@ -361,13 +393,13 @@ def run(prop, tier, replay):
                     raise Infra("too few histories")
                 scs += [from_hist(i + 1, h, rng) for i, h in enumerate(hists)]
             if prop in ("C03", "C15"):
-                lf = vlib.tlc("dataplane", "EndpointLife", "EndpointLife.cfg", workers=2, timeout=600, consts={"MaxLen": 4 if tier == "quick" else 6})
-                if lf.violation:
-                    raise Infra("EndpointLife.tla violates %s" % lf.violated())
-                lives = [json.loads(x) if isinstance(x, str) else x for x in lf.json_prints("LIFE")]
-                if len(lives) < 20:
-                    raise Infra("too few endpoint lives")
-                states, trans = states + lf.distinct, trans + lf.generated
+                lives, ls, lt = lives_of(tier, prop)
+                if tier == "quick":      # every life without health changes, a stratified sample of those with
+                    plain = [x for x in lives if "hfail" not in x and "hok" not in x]
+                    hl = [x for x in lives if x not in plain and any(m in ("on", "off") for m in x)]
+                    rng.shuffle(hl)
+                    lives = plain + [x for x in hl if x[-1] == "on"][:25] + [x for x in hl if x[-1] != "on"][:10]
+                states, trans = states + ls, trans + lt
                 scs += life_scenarios(830001, lives, long_wait_every=0 if tier == "quick" else 10)
             if prop == "C03":
                 mp = vlib.tlc("dataplane", "Endpoints", "EndpointsMP.cfg", workers=2, timeout=600)
@@ -401,7 +433,7 @@ def run(prop, tier, replay):
         vlib.write_ndjson(tr_p, tl)
         tv = vlib.tlc("dataplane", "TraceEndpoints", "TraceEndpoints.cfg", workers=8, timeout=1800,
                       consts={"TraceFile": '"%s"' % tr_p, "Judge03": "TRUE" if prop == "C03" else "FALSE", "Judge14": "TRUE" if prop == "C14" else "FALSE",
-                              "Judge15": "TRUE" if prop == "C15" else "FALSE"})
+                              "Judge15": "TRUE" if prop == "C15" else "FALSE", "JudgeLive": "TRUE" if prop in ("C03", "C15") else "FALSE"})
         rejected = {}
         for l in tv.out.splitlines():
             if l.startswith('<<"REJECT"'):
@@ -414,10 +446,10 @@ def run(prop, tier, replay):
                                            "what": {"fwd": "request forwarded to an endpoint that is not listed / disabled / outside the policy's subset / known unhealthy",
                                                     "status": "503 although a ready endpoint of the policy existed", "probe": "health probe of a disabled or removed endpoint after the change had settled",
                                                     "hung": "in-flight request to a removed endpoint / deleted cluster was not cancelled within 5 s", "cut": "a request to another endpoint / cluster was cancelled by the removal",
-                                                    "ctl": "a request to an unaffected cluster failed", "picks": "picks are not evenly spread over the ready endpoints"}.get(kind, kind)})
+                                                    "ctl": "a request to an unaffected cluster failed", "ready": "the gateway's view of the enabled endpoints did not follow what their upstreams answer (3 s + a probe request + one full health-check interval)", "triggered": "an endpoint listed as enabled did not probe when asked to (no live health-check loop)", "pokelive": "an endpoint listed as enabled did not probe when asked to (no live health-check loop), or the gateway's view of it is not what its upstream answers", "picks": "picks are not evenly spread over the ready endpoints"}.get(kind, kind)})
         rc = v.finish()
         allev = [e for t in tl for e in t["events"]]
-        judged = [e for e in allev if e["k"] in {"C03": ("fwd", "status", "probe"), "C14": ("picks",), "C15": ("probe", "hung", "cut", "ctl", "fwd", "status")}[prop]]
+        judged = [e for e in allev if e["k"] in {"C03": ("fwd", "status", "probe", "pokelive"), "C14": ("picks",), "C15": ("probe", "hung", "cut", "ctl", "fwd", "status", "pokelive")}[prop]]
         cov = {"states": states + tv.distinct, "transitions": trans + tv.generated, "traces_validated_against_impl": len(tl) - len(rejected),
                "samples": [tl[0]["events"][:8]], "evaluations": len(judged), "distinct_nontrivial": len({vlib.canon(t["events"]) for t in tl}),
                "rule": "one evaluation = one judged event (forward / 503 / probe / cut / hung / pick sequence); histories: TLC -simulate over Endpoints.tla (server-list versions with disabled flags, probe outcomes, "
